@@ -34,6 +34,30 @@ func init() {
 }
 
 // c03Judge gives data to the library reader and compares with the generator's plaintext.
+// c03Path is the abstract trace of a case: for op sequences the path of (coder state, op kind)
+// pairs of the suffix, otherwise the layout parameters.
+func c03Path(p C03Case) string {
+	switch p.Kind {
+	case "ops":
+		a := newAbs()
+		path := fmt.Sprint(p.Fill, p.Props, ":")
+		for _, s := range fillPrefix(p.Fill) {
+			a.step(s)
+		}
+		for _, s := range p.Syms {
+			st := a.st
+			op, _ := a.step(s)
+			path += fmt.Sprintf("%d%d,", st, op.Kind)
+		}
+		return path
+	case "chunks":
+		return fmt.Sprint(p.Layout)
+	case "container":
+		return fmt.Sprint(p.Cont)
+	}
+	return p.File + fmt.Sprint(p.Enc, p.DictCap)
+}
+
 func c03Judge(r *core.Run, p C03Case, data, plain []byte, site, desc string) {
 	cs := core.MkCase("C03", "stream", p)
 	// the reference must accept its own / liblzma's stream: binding, hard error otherwise
@@ -56,7 +80,7 @@ func c03Judge(r *core.Run, p C03Case, data, plain []byte, site, desc string) {
 	}
 	r.Trace(1)
 	r.Eval(core.Hash(data))
-	r.Nontrivial(core.Hash(site, cls, len(plain) > 0))
+	r.Nontrivial(core.Hash(site, cls, c03Path(p)))
 }
 
 func dictCodeFor(n int) byte {
@@ -234,6 +258,7 @@ func runC03(r *core.Run) {
 		ext   bool
 		depth int
 		props [3]int
+		narrow []OpSym
 	}
 	var jobs []opJob
 	d0, d1 := 4, 2
@@ -278,13 +303,25 @@ func runC03(r *core.Run) {
 			})
 		}
 	}
+	if th {
+		// deep but narrow: depth 7 over a reduced alphabet (11 symbols), sharded by the first two
+		narrow := []OpSym{{K: ref.OpLit, B: 0}, {K: ref.OpLit, B: 0xFF}, {K: ref.OpMatch, Len: 2, Dist: 1}, {K: ref.OpMatch, Len: 273, Dist: -1},
+			{K: ref.OpMatch, Len: 9, Dist: 2}, {K: ref.OpRep0, Len: 2}, {K: ref.OpShortRep}, {K: ref.OpRep1, Len: 2}, {K: ref.OpRep2, Len: 3}, {K: ref.OpRep3, Len: 2}}
+		enumSyms(nil, narrow, 2, func(ops []ref.Op, suf []OpSym) {
+			jobs = append(jobs, opJob{head: suf, depth: 5, props: [3]int{1, 1, 1}, narrow: narrow})
+		})
+	}
 	var nOps int64
 	r.Parallel(len(jobs), "operation sequences", func(i int) {
 		j := jobs[i]
 		pre := append(append([]OpSym(nil), fillPrefix(j.fill)...), j.head...)
 		fill := j.fill
 		n := int64(0)
-		enumSyms(pre, opAlphabet(j.ext), j.depth, func(ops []ref.Op, suf []OpSym) {
+		alpha := opAlphabet(j.ext)
+		if j.narrow != nil {
+			alpha = j.narrow
+		}
+		enumSyms(pre, alpha, j.depth, func(ops []ref.Op, suf []OpSym) {
 			c := C03Case{Kind: "ops", Fill: fill, Syms: append(append([]OpSym(nil), j.head...), suf...), Props: j.props, DictCap: 4096}
 			c03Run(r, c)
 			n++
